@@ -41,6 +41,9 @@ def _dispatch(prop: str, tier: str):
         from . import policycheck
         return policycheck.check(prop, tier)
     from . import retrycheck
+    if prop == "C14":
+        from . import policycheck
+        return policycheck.check("C14", tier, retrycheck.check("C14", tier))
     if prop in retrycheck.PROFILES:
         return retrycheck.check(prop, tier)
     raise SystemExit(f"unknown property {prop}")
